@@ -101,6 +101,9 @@ class Canon(object):
             else:
                 out.append('q' + name)
             return
+        if tp is object:
+            out.append('bareobject')
+            return
         if isinstance(obj, logging.Logger):
             out.append('L')
             return
